@@ -102,6 +102,13 @@ func parseField(toks tokenizer) (Field, tokenizer) {
 	order, toks2 := toks.keyOrOp()
 	f.OrderOff = order.Off
 	if order.Kind == 'w' || order.Kind == 'q' {
+		if order.Tok == "fixed" {
+			// "fixed" is the internal name of an explicit value
+			// list. Written as a word it would be a list with
+			// no values, which filters out everything.
+			_, toks = toks.error("unknown order \"fixed\"")
+			return f, toks
+		}
 		f.Order = order.Tok
 		return f, toks2
 	}
